@@ -297,7 +297,7 @@ def histories(level):
                 if "f" not in s and bg != "nest" and bf != fb[0]:
                     continue
                 for inp in inputs:
-                    for form in ("plain", "composite", "scaled"):
+                    for form in ("plain", "composite", "scaled", "cancelled"):
                         if form != "plain" and inp != inputs[0] and level == 0:
                             continue
                         out.append({"f": bf, "g": bg, "seq": "".join(s), "inp": inp, "form": form})
@@ -341,7 +341,9 @@ def run_history(h, p):
             fn = F[c]
             # argument forms: bare wires, two-term combinations (need a fresh caller-side wire each),
             # scaled single wires
-            a1, a2 = {"plain": (cur, y), "composite": (cur + 1, y + 2), "scaled": (cur * 3, y * (-1))}[form]
+            a1, a2 = {"plain": (cur, y), "composite": (cur + 1, y + 2), "scaled": (cur * 3, y * (-1)),
+                      # one wire whose linear combination still carries a cancelled / zero-scaled other wire
+                      "cancelled": ((y + cur) - y, cur * 0 + y)}[form]
             r = fn(a1, a2) if fn.nargs == 2 else fn(a1)
             first = r[0] if isinstance(r, list) else r
             if isinstance(first, rt.LinComb):
